@@ -21,7 +21,7 @@ def toD : Arr → LVal → DVal
   | .time ty _ _ _, .int x => timeAny ty x
   | .timestamp _ _ _ _, .int x => .int .i64 x
   | .decimal128 _ _ _ _, .int x => .codec x
-  | .dictionary _ _, .str b => .str .transient b
+  | .dictionary _ _, .str b => .str .borrowed b
   | _, .str b => .str .borrowed b
   | _, .bin b => .bytes .borrowed b
   | .struct _ _ fs, .struct lfs => .map (toDFields fs lfs)
